@@ -1,4 +1,5 @@
 import NibabelModel.Lemmas.C15_Build
+import NibabelModel.Lemmas.C15_Tract
 /-! Props/C15 — ArraySequence is observationally a list of arrays under any history.
 
   `Inv` (Lemmas/C15.lean) is the storage invariant: every range lies in the written prefix of its
@@ -836,5 +837,291 @@ theorem orig_iop_partial :
     (iopOrig (arith 0 10) σ 1).map (·.contents 0) = some [[[11],[12]], [[3]]] ∧
     (iop (arith 0 10) σ 1).map (·.contents 0) = some [[[11],[12]], [[13]]] := by
   decide
+
+/-! ### Tractograms over the sequence heap: `Tractogram(..)`, `T[idx]`, `T.extend(U)` / `+=`,
+    `T.data_per_point[k] = seq` (Model/C15.lean `TOp`, `tstep`; Lemmas/C15_Tract.lean) -/
+
+/-- no operation removes a live sequence -/
+theorem step_len {σ σ' : State} (h : Inv σ) (op : Op) (hs : step σ op = .ok σ') :
+    σ.seqs.length ≤ σ'.seqs.length := by
+  cases op <;> simp only [step] at hs
+  case new bb => cases hs; rw [addSeq_length, alloc_seqs]; omega
+  case append t w dt el =>
+    split at hs
+    · cases hs; rw [(append_spec h (by assumption) el w dt).2.1]; omega
+    · cases hs
+  case extend t w dt els =>
+    split at hs
+    · cases hs; rw [(extendList_spec h (by assumption) els w dt).2.1]; omega
+    · cases hs
+  case extendGen t w dt els =>
+    split at hs
+    · cases hs; rw [(extendGen_spec h (by assumption) els w dt).2.1]; omega
+    · cases hs
+  case extendSeq t u w =>
+    split at hs
+    · rename_i hc; cases hs; rw [(extendSeq_spec h hc.1 hc.2 w).2.1]; omega
+    · cases hs
+  case view t bb =>
+    split at hs
+    · cases hs; rw [viewCtor_length]; omega
+    · cases hs
+  case copy t =>
+    split at hs
+    · cases hs; rw [copyOp_eq, addSeq_length, alloc_seqs]; omega
+    · cases hs
+  case slice t sl =>
+    split at hs
+    · split at hs
+      · cases hs
+      · cases hs; rw [getView_length]; omega
+    · cases hs
+  case fancy t idx =>
+    split at hs
+    · split at hs
+      · cases hs; rw [getView_length]; omega
+      · cases hs
+    · cases hs
+  case mask t m =>
+    split at hs
+    · split at hs
+      · cases hs; rw [getView_length]; omega
+      · cases hs
+    · cases hs
+  case getInt t i =>
+    split at hs
+    · split at hs
+      · cases hs; omega
+      · cases hs
+    · cases hs
+  case setInt t i el =>
+    split at hs
+    · split at hs
+      · split at hs
+        · cases hs; exact Nat.le_refl _
+        · cases hs
+      · cases hs
+    · cases hs
+  case setSlice t sl els =>
+    split at hs
+    · rename_i ht
+      split at hs
+      · cases hs
+      · split at hs
+        · rename_i hm
+          cases hs
+          rw [(setMany_inv _ els h ht (fun _ hr => mem_of_filterMap_get hr) hm).2]; omega
+        · cases hs
+    · cases hs
+  case iop t code k =>
+    split at hs
+    · rename_i ht
+      split at hs
+      · rename_i σ'' hi
+        cases hs
+        rw [(inv_iop h ht code k hi).2]; omega
+      · cases hs
+    · cases hs
+  case op t code k =>
+    split at hs
+    · rename_i ht
+      split at hs
+      · rename_i σ'' hi
+        cases hs
+        rw [(opNew_spec _ (arith_length code k) h ht hi).2.1]; omega
+      · cases hs
+    · cases hs
+  case unary t code =>
+    split at hs
+    · rename_i ht
+      split at hs
+      · rename_i σ'' hi
+        cases hs
+        rw [(opNew_spec _ (unary_length code) h ht hi).2.1]; omega
+      · cases hs
+    · cases hs
+  case iopSeq t v code =>
+    split at hs
+    · rename_i hc; rw [(iopSeq_spec_partial code h hc.1 hc.2 hs).2.1]; omega
+    · cases hs
+  case opSeq t v code =>
+    split at hs
+    · rename_i hc; rw [(opSeq_spec code h hc.1 hc.2 hs).2.1]; omega
+    · cases hs
+  case concat ts w =>
+    split at hs
+    · cases hs
+    · rename_i t us
+      split at hs
+      · rename_i hall
+        cases hs
+        simp only [List.all_cons, Bool.and_eq_true, decide_eq_true_eq, List.all_eq_true] at hall
+        rw [(concat_spec h hall.1 us hall.2 w).2.1]; omega
+      · cases hs
+
+/-- EVERY operation of a tractogram history — sequence operations on any live sequence (also one held by
+    a tractogram), `Tractogram(..)`, `T[idx]`, `T.extend(U)` (also when it raises part-way),
+    `T.data_per_point[k] = seq` — keeps the storage invariant, and every sequence a tractogram holds stays
+    a live sequence -/
+theorem tinv_step {τ : TState} (h : TInv τ) (op : TOp) : TInv (tstep τ op).1 := by
+  cases op <;> simp only [tstep]
+  case seq op =>
+    split
+    · rename_i σ' hs
+      exact ⟨inv_step h.inv op hs, fun t ht m hm => Nat.lt_of_lt_of_le (h.live t ht m hm) (step_len h.inv op hs)⟩
+    · exact h
+  case tnew src dpp asList w =>
+    split
+    · rename_i hg
+      split
+      · rename_i τ' hr
+        simp only [Bool.and_eq_true, List.all_eq_true, decide_eq_true_eq] at hg
+        refine (tnew_spec h ?_ hg.2 hr).1
+        intro s hs; subst hs; simpa using hg.1
+      · exact h
+    · exact h
+  case tget T idx =>
+    split
+    · rename_i hT
+      split
+      · rename_i τ' hr; exact (tget_spec h hT hr).1
+      · exact h
+    · exact h
+  case textend T U w =>
+    split
+    · rename_i hc; exact (textend_spec h hc.1 hc.2 w).1
+    · exact h
+  case tset T k src asList w =>
+    split
+    · rename_i hc
+      split
+      · rename_i τ' hr; exact (tset_spec h hc.1 hc.2 hr).1
+      · exact h
+    · exact h
+
+/-- … after every tractogram history -/
+theorem tinv_run (ops : List TOp) : ∀ {τ : TState}, TInv τ → TInv (trun τ ops) := by
+  induction ops with
+  | nil => intro τ h; exact h
+  | cons op ops ih => intro τ h; exact ih (tinv_step h op)
+
+example : TInv (trun TState.init [.seq (.new 0), .seq (.extend 0 1 1 [[[1],[2]], [[3]]]), .seq (.new 0),
+    .seq (.extend 1 1 1 [[[10],[20]], [[30]]]), .tnew (some 0) [(0, 1)] false 1, .tnew none [] false 1,
+    .textend 1 0 1, .tget 0 (.slice ⟨none, some 1, none⟩), .textend 2 0 1, .tset 1 1 0 true 1]) :=
+  tinv_run _ tinv_init
+
+/-- building a tractogram from live sequences, slicing / fancy-indexing a tractogram and assigning per-point
+    data change NO live sequence (the sequences the new tractogram holds, and the stored per-point sequence,
+    are NEW live sequences — views that detach before they grow, or new owners) -/
+theorem tract_creation_changes_nothing {τ : TState} (h : TInv τ) (op : TOp)
+    (hop : match op with | .tnew .. | .tget .. | .tset .. => True | _ => False) :
+    ∀ u, u < τ.st.seqs.length → (tstep τ op).1.st.contents u = τ.st.contents u := by
+  intro u hu
+  cases op <;> simp only at hop <;> simp only [tstep]
+  case tnew src dpp asList w =>
+    split
+    · rename_i hg
+      split
+      · rename_i τ' hr
+        simp only [Bool.and_eq_true, List.all_eq_true, decide_eq_true_eq] at hg
+        exact (tnew_spec h (by intro s hs; subst hs; simpa using hg.1) hg.2 hr).2.1.keep u hu (fun hf => hf)
+      · rfl
+    · rfl
+  case tget T idx =>
+    split
+    · rename_i hT
+      split
+      · rename_i τ' hr; exact (tget_spec h hT hr).2.1.keep u hu (fun hf => hf)
+      · rfl
+    · rfl
+  case tset T k src asList w =>
+    split
+    · rename_i hc
+      split
+      · rename_i τ' hr; exact (tset_spec h hc.1 hc.2 hr).2.1.keep u hu (fun hf => hf)
+      · rfl
+    · rfl
+
+/-- `T.extend(U)` / `T += U` can change ONLY the sequences `T` itself holds: every other live sequence keeps
+    its contents — also when the call raises part-way -/
+theorem textend_only_receiver_changes {τ : TState} (h : TInv τ) {T U : Nat} (hT : T < τ.tracts.length)
+    (hU : U < τ.tracts.length) (w : Nat) {u : Nat} (hu : u < τ.st.seqs.length)
+    (hn : u ∉ (τ.tractAt T).members) :
+    (textend τ T U w).1.st.contents u = τ.st.contents u :=
+  (textend_spec h hT hU w).2.1.keep u hu hn
+
+/-- … in particular the donor: when `T` holds none of the sequences of `U`, everything `U` holds is unchanged -/
+theorem textend_preserves_donor {τ : TState} (h : TInv τ) {T U : Nat} (hT : T < τ.tracts.length)
+    (hU : U < τ.tracts.length) (w : Nat) (hdisj : ∀ m ∈ (τ.tractAt U).members, m ∉ (τ.tractAt T).members) :
+    ∀ m ∈ (τ.tractAt U).members, (textend τ T U w).1.st.contents m = τ.st.contents m :=
+  fun m hm => textend_only_receiver_changes h hT hU w (h.live _ (tractAt_mem hU) m hm) (hdisj m hm)
+
+example : let τ := trun TState.init [.seq (.new 0), .seq (.extend 0 1 1 [[[1],[2]], [[3]]]), .seq (.new 0),
+      .seq (.extend 1 1 1 [[[10],[20]], [[30]]]), .tnew (some 0) [(0, 1)] false 1, .tnew none [] false 1, .textend 1 0 1]
+    (∀ m ∈ (τ.tractAt 0).members, m ∉ (τ.tractAt 1).members) ∧ (τ.tractAt 1).members = [4, 5] ∧
+    (textend τ 1 0 1).1.st.contents 5 = [[[10],[20]], [[30]], [[10],[20]], [[30]]] ∧
+    (textend τ 1 0 1).1.st.contents 3 = [[[10],[20]], [[30]]] := by decide
+
+/-- growing `T` any number of times -/
+def growMany (w : Nat) (T : Nat) (τ : TState) (Us : List Nat) : TState :=
+  Us.foldl (fun τ U => (textend τ T U w).1) τ
+
+/-- a tractogram whose sequences were all created at or after time `N` (sequence numbers `≥ N`) can be grown
+    any number of times, by any donors, without altering ANY sequence that existed at time `N` -/
+theorem growth_of_later_tractogram_keeps_earlier_sequences (w N T : Nat) (Us : List Nat) :
+    ∀ {τ : TState}, TInv τ → T < τ.tracts.length → (∀ U ∈ Us, U < τ.tracts.length) → N ≤ τ.st.seqs.length →
+    (∀ m ∈ (τ.tractAt T).members, N ≤ m) →
+    ∀ u, u < N → (growMany w T τ Us).st.contents u = τ.st.contents u := by
+  induction Us with
+  | nil => intro τ _ _ _ _ _ u _; rfl
+  | cons U Us ih =>
+    intro τ h hT hUs hN hm u hu
+    obtain ⟨a, b, c, _, e⟩ := textend_spec h hT (hUs U (by simp)) w
+    simp only [growMany, List.foldl_cons]
+    have := ih (τ := (textend τ T U w).1) a (by omega) (fun X hX => by rw [c]; exact hUs X (by simp [hX]))
+      (Nat.le_trans hN b.len)
+      (fun m hm' => by
+        rcases e m hm' with e | e
+        · exact hm m e
+        · omega) u hu
+    simp only [growMany] at this
+    rw [this]
+    exact b.keep u (by omega) (fun hmem => by have := hm u hmem; omega)
+
+/-- `D = P[idx]` (slice or list index), then `D.extend(U1); D.extend(U2); …` (or `+=`) with any donors —
+    `P` itself included — never alters any element of any sequence that existed before, in particular of the
+    streamlines and the per-point data of `P`, the tractogram `D` was taken from -/
+theorem growing_derived_tractogram_preserves_parent {τ τ1 : TState} (h : TInv τ) {P : Nat}
+    (hP : P < τ.tracts.length) {idx : TIdx} (hg : tget τ P idx = .ok τ1) (Us : List Nat)
+    (hUs : ∀ U ∈ Us, U ≤ τ.tracts.length) (w : Nat) :
+    ∀ u, u < τ.st.seqs.length → (growMany w τ.tracts.length τ1 Us).st.contents u = τ.st.contents u := by
+  intro u hu
+  obtain ⟨a, b, c, _, e⟩ := tget_spec h hP hg
+  rw [growth_of_later_tractogram_keeps_earlier_sequences w τ.st.seqs.length τ.tracts.length Us a (by omega)
+    (fun U hU => by have := hUs U hU; omega) b.len e u hu]
+  exact b.keep u hu (fun hf => hf)
+
+example : ∃ τ1, tget (trun TState.init [.seq (.new 0), .seq (.extend 0 1 1 [[[1],[2]], [[3]]]), .seq (.new 0),
+      .seq (.extend 1 1 1 [[[10],[20]], [[30]]]), .tnew (some 0) [(0, 1)] false 1]) 0 (.slice ⟨none, some 1, none⟩) = .ok τ1 ∧
+    (growMany 1 1 τ1 [0, 1]).st.contents 5 = [[[10],[20]], [[10],[20]], [[30]], [[10],[20]], [[10],[20]], [[30]]] :=
+  ⟨_, rfl, by decide⟩
+
+/-- the accumulator pattern `acc = Tractogram(); acc += a; acc += b; …`: no sequence that existed when the
+    accumulator was created (the streamlines and per-point data of `a`, `b`, …, and whatever they are views
+    of) is ever altered, however often the accumulator grows -/
+theorem growing_accumulator_preserves_donors {τ τ1 : TState} (h : TInv τ) {w0 : Nat}
+    (hn : tnew τ none [] false w0 = some τ1) (Us : List Nat) (hUs : ∀ U ∈ Us, U ≤ τ.tracts.length) (w : Nat) :
+    ∀ u, u < τ.st.seqs.length → (growMany w τ.tracts.length τ1 Us).st.contents u = τ.st.contents u := by
+  intro u hu
+  obtain ⟨a, b, c, _, e⟩ := tnew_spec h (src := none) (by intro s hs; cases hs) (by intro kf hkf; cases hkf) hn
+  rw [growth_of_later_tractogram_keeps_earlier_sequences w τ.st.seqs.length τ.tracts.length Us a (by omega)
+    (fun U hU => by have := hUs U hU; omega) b.len e u hu]
+  exact b.keep u hu (fun hf => hf)
+
+example : ∃ τ1, tnew (trun TState.init [.seq (.new 0), .seq (.extend 0 1 1 [[[1],[2]], [[3]]]), .seq (.new 0),
+      .seq (.extend 1 1 1 [[[10],[20]], [[30]]]), .tnew (some 0) [(0, 1)] false 1]) none [] false 1 = some τ1 ∧
+    (growMany 1 1 τ1 [0, 0]).st.contents 5 = [[[10],[20]], [[30]], [[10],[20]], [[30]]] ∧
+    (growMany 1 1 τ1 [0, 0]).st.contents 3 = [[[10],[20]], [[30]]] :=
+  ⟨_, rfl, by decide, by decide⟩
 
 end Nb.C15
